@@ -186,8 +186,11 @@ PROPS["C02"] = {
                    "(enumerant number, mask bits, word, low-then-high for 64 bits, NUL-terminated padded string words), an instruction is its first word "
                    "(word count << 16 | opcode, word count = words emitted) followed by result type, result id and the operand encodings in order. "
                    "The parser side is proved to consume exactly the declared extent and to deliver operand vectors that conform to the row, variant by variant (C03 `conforms`), "
-                   "with the tracker fed by every delivered instruction (parser_protocol, tracker). NOT proved in this revision: the value-level inverse lemma "
-                   "parse(assemble(i)) == i (needs value postconditions on the generated operand parsers); assemble_str is a BOUNDED Kani check.",
+                   "with the tracker fed by every delivered instruction (parser_protocol, tracker). Value level: every arm of parse_operand (one function per arm, R26) returns operands whose "
+                   "first_word - enumerant number, mask bits, id / literal word - is the word read at the arm's offset (both words for pairs), parse_literal returns the one- or two-word literal low word first, "
+                   "result type / result id are the first operand words; unit assemble proves enc_operand(op) == [first_word(op)] (64-bit: + high half) for every non-string operand. "
+                   "NOT proved: the composition of these per-chunk facts into parse(assemble(i)) == i as one lemma, the parameters parsed by the six parse_*_arguments functions at value level, "
+                   "strings beyond Decoder::string's contract (C11); assemble_str is a BOUNDED Kani check.",
     "assumptions": [],
 }
 
